@@ -79,7 +79,9 @@ def gen_race(seed, tier):
     simgen.tame_for_line_mode(programs, cfg)
     if cfg["mode"] == "none":
         cfg["mode"] = "cold"
-    return {"seed": seed, "mode7": "race", "world": w, "programs": programs, "roles": roles, "config": cfg, "faults": []}
+    frng = rng_for(seed, "faults")
+    faults = simgen.gen_interrupts(frng, programs, roles, cfg["mode"], 2) if frng.random() < 0.3 else []
+    return {"seed": seed, "mode7": "race", "world": w, "programs": programs, "roles": roles, "config": cfg, "faults": faults}
 
 
 def _repoint(prog):
